@@ -3,8 +3,8 @@ import itertools, re
 import vf
 
 ID = 'C13'
-FLAVORS = ['default']
-RULE = ('LEX lines: every string up to length 4 (quick) / 5 (thorough) over a 21-symbol alphabet holding one representative of every character class the recognisers distinguish '
+FLAVORS = ['default', 'uchar']
+RULE = ('LEX lines (default build, and the strings with a byte above 0x7f also on a build with unsigned plain char): every string up to length 4 (quick) / 5 (thorough) over a 21-symbol alphabet holding one representative of every character class the recognisers distinguish '
         '(letter, E, H/B/Q, hex letter, digits 0 1 8, _, blank, tab, + - . # quote, apostrophe, ( ) ; , : * ? / CR LF @ ! NUL, a byte >= 0x80), at offset 0 and (sampled) embedded at offsets 1..3 of a longer buffer, '
         'plus grammar-generated long tokens; each line runs all 13 recognisers, the program-data choice and the unit scanner. Non-trivial: at least one recogniser consumed input; distinct = distinct lines.')
 MODELLED = 'every scpiLex_* recogniser, scpiParser_parseProgramData/parseAllProgramData/detectProgramMessageUnit are modelled in LexModel as functions of the remaining input'
@@ -156,4 +156,11 @@ def streams(tier, rng):
         pre = bytes(rng.choice(b'a1 ;"#') for _ in range(off))
         cases.append('LEX %d %s' % (off, vf.hx(pre + t)))
     yield {'name': 'recognisers', 'cases': cases, 'oracle': oracle,
+           'nontrivial': lambda c, o: c if re.search(r':\d+,\d+,\d+,[1-9]', o) else None}
+
+    # the same recognisers where plain char is unsigned (ARM, PowerPC): strings containing a byte above 0x7f
+    hi = [c for c in cases if '80' in c.split(' ')[2]]
+    hi = hi[:: max(1, len(hi) // (30000 if tier == 'quick' else 200000))]
+    hi += [c.rsplit(' ', 1)[0] + ' ' + c.rsplit(' ', 1)[1].replace('80', x) for c in hi[::7] for x in ('ff', 'a0', 'c2')]
+    yield {'name': 'recognisers-unsigned-char', 'flavor': 'uchar', 'cases': hi, 'oracle': oracle,
            'nontrivial': lambda c, o: c if re.search(r':\d+,\d+,\d+,[1-9]', o) else None}
